@@ -52,7 +52,7 @@ class C10(Prop):
             "re-rendered with random per-line padding, one of LF/CRLF/CR and extra spaces; all four entry points x "
             "header_only in {False, True}; all 6 extensions x 3 classes for the gate; non-trivial = content with >= 2 "
             "ballot/edge lines")
-    budget = {"quick": 120, "thorough": 5000}
+    budget = {"quick": 400, "thorough": 5000}
     anchors = [("preflibtools.instances.preflibinstance.instance", "PrefLibInstance." + n) for n in
                ("parse_lines", "parse_file", "parse_str", "parse_url")] + \
               [("preflibtools.instances.preflibinstance.utils", "get_parsed_instance"),
